@@ -62,14 +62,14 @@ func init() {
 	reg(&Prop{ID: "C07", Level: "exploration",
 		Quick:    Tier{Cases: 3200, PerJob: 200, Seconds: 60},
 		Thorough: Tier{Cases: 160000, PerJob: 2500, Seconds: 1500},
-		Rule:     "one case = one entry point (AssembleFile incl. seed validation, VerifyIndex on a file with one damaged byte, ChopFile, Copy, ChunkStream, IndexFromFile, Tar, UnTar, UnTarIndex) with a tape-built workload and worker count; run A records a seeded schedule of S steps without cancellation, then the same schedule is re-run with the context cancelled before scheduling decision k for every k in 0..S+1 (S <= 150) or 60 tape-chosen k (sub_evaluations counts these runs); oracle: nil result => work complete (target == blob / every chunk stored / index covers the input / tree complete), the call returns, no panic; distinct = distinct (entry point, schedule hashes); non-trivial = at least one cancellation fired",
+		Rule:     "one case = one entry point (AssembleFile incl. seed validation, VerifyIndex on a file with one damaged byte, ChopFile, Copy, ChunkStream, IndexFromFile, Tar, UnTar, UnTarIndex) with a tape-built workload and worker count; run A records a seeded schedule of S steps without cancellation, then the same schedule is re-run with the context cancelled before scheduling decision k for every k in 0..S+1 (S <= 150) or 60 tape-chosen k (sub_evaluations counts these runs); oracle: nil result => work complete (target == blob / every chunk stored / index covers the input / tree complete), the call returns, no panic; distinct = distinct (entry point, schedule hashes); non-trivial = at least one cancellation fired; 1/10 of the cases run the real `desync` binary (extract with/without --in-place, --print-stats, -c cache; chop; cache; make with/without --print-stats; untar -i with/without cache; -n 1 or 3) against a gated loopback chunk server that holds request k while SIGINT or SIGTERM is delivered, for k = 1, last and 6 tape-chosen k: exit status 0 => work complete, a failed extract leaves the destination as it was",
 		Assumptions: []string{
 			"cancellation is delivered between two scheduling decisions (channel/lock/store operation granularity)",
 			"a cancelled call that did finish its work may return nil or an error; only nil with incomplete work is a violation",
-			"signals to the CLI are represented by cancellation of the root context, which is all cmd/desync/main.go does on SIGINT/SIGTERM",
+			"in the bubble, signals are represented by cancellation of the root context, which is all cmd/desync/main.go does on SIGINT/SIGTERM; the process-level share delivers the real signals",
 		},
 		Real: []string{"AssembleFile", "Plan.Validate", "VerifyIndex", "ChopFile", "Copy", "ChunkStream", "IndexFromFile", "Tar", "UnTar", "UnTarIndex"},
-		Stub: []string{"chunk stores", "scheduler", "context cancellation instant"},
+		Stub: []string{"chunk stores", "scheduler", "context cancellation instant", "gated HTTP chunk server (process level)"},
 	})
 	reg(&Prop{ID: "C06", Level: "exploration",
 		Quick:    Tier{Cases: 80000, PerJob: 5000, Seconds: 60},
@@ -85,13 +85,13 @@ func init() {
 	reg(&Prop{ID: "C11", Level: "exploration",
 		Quick:    Tier{Cases: 160000, PerJob: 10000, Seconds: 60},
 		Thorough: Tier{Cases: 8000000, PerJob: 100000, Seconds: 1500},
-		Rule:     "one case = chain shape as the CLI builds it (router of 1..3 elements, each a store or a failover group of 2..4, optionally under a cache with or without repair, optionally under a SwapStore with a second chain swapped in by a reconfiguration task, or - as the writable chunk server builds it - one writable member under a SwapWriteStore with Get/Has/Store clients) x per-member content per id {has, missing, invalid} x per-member fault schedule {healthy, always failing, failing during calls k..k+j} x 1..4 client tasks issuing 1..8 Get/Has over 2..4 ids under the seeded scheduler; oracle: per operation the member calls made by that task must be exactly the calls the documented policy makes given the observed member outcomes, and the result must be what the policy yields (swap: old chain before, new chain after, exactly one of them when overlapping; old members closed once, after their in-flight requests, never used afterwards); distinct = distinct (shape, clients, trace hash, member-call count); non-trivial = preemption or member fault fired",
+		Rule:     "one case = chain shape as the CLI builds it (router of 1..3 elements, each a store or a failover group of 2..4, optionally under a cache with or without repair, optionally under a SwapStore with a second chain swapped in by a reconfiguration task, or - as the writable chunk server builds it - one writable member under a SwapWriteStore with Get/Has/Store clients) x per-member content per id {has, missing, invalid} x per-member fault schedule {healthy, always failing, failing during calls k..k+j} x 1..4 client tasks issuing 1..8 Get/Has over 2..4 ids under the seeded scheduler; oracle: per operation the member calls made by that task must be exactly the calls the documented policy makes given the observed member outcomes, and the result must be what the policy yields (swap: old chain before, new chain after, exactly one of them when overlapping; old members closed once, after their in-flight requests, never used afterwards); distinct = distinct (shape, clients, trace hash, member-call count); non-trivial = preemption or member fault fired; 1/400 of the cases give the real `desync cat` / `desync extract -n 1` a chain on its command line (1..3 -s arguments, each a local directory, a loopback HTTP server or a a|b|c failover group of those; optional -c cache pre-filled with valid and invalid chunks, with the default --cache-repair or --cache-repair=false; members healthy, answering 503 to everything, or dead; per-chunk content present / missing / a valid object of other data): exit status and output must be what the documented policy yields, every answering HTTP member must have seen exactly the requests the policy predicts, in order, and after a success the cache holds every chunk valid",
 		Assumptions: []string{
 			"which failover member is consulted at each attempt is not predicted (it depends on a shared index); the oracle bounds attempts by the group size and requires success whenever one member never fails",
 			"de-duplication queues in chains are covered by C12, not here",
 		},
 		Real: []string{"StoreRouter", "Cache", "RepairableCache", "FailoverGroup", "SwapStore"},
-		Stub: []string{"member stores (content + fault schedule, call log)", "scheduler"},
+		Stub: []string{"member stores (content + fault schedule, call log)", "scheduler", "loopback HTTP members and local directories (process level)"},
 	})
 	reg(&Prop{ID: "C09", Level: "exploration",
 		Quick:    Tier{Cases: 120000, PerJob: 7500, Seconds: 60},
@@ -140,11 +140,11 @@ func init() {
 	reg(&Prop{ID: "C14", Level: "exploration",
 		Quick:    Tier{Cases: 48000, PerJob: 3000, Seconds: 70},
 		Thorough: Tier{Cases: 2400000, PerJob: 40000, Seconds: 1500},
-		Rule:     "one case = one of {chunk GET/HEAD/PUT through the real RemoteHTTP client and HTTPHandler over an in-process transport, for every combination of client/server -u, upstream format, verify flags per hop; index GET/PUT through RemoteHTTPIndex and HTTPIndexHandler (optionally chained behind a second index server) and HEAD on the index handler; a casync-protocol session of 1..8 requests against ProtocolServer over a pipe with byte-wise fragmentation and the connection cut after a tape-chosen byte} x response script (0..7 transient failures out of {connection reset, 500, 503, short body, response delayed past the client time-out}, then served / 404 / 400 / 403) x error-retry 0..5 x back-off base 1..500 ms, all in fake time; oracle: payload byte-identical, missing <=> ChunkMissing/NoSuchObject/false/404, failures never reported as missing or success, transient runs shorter than the budget invisible, requests seen == min(f+1, max(1, error-retry)), simulated time spent == documented linear back-off (+ time-outs); distinct = distinct (class incl. script shape, trace hash / tape); non-trivial = a transport fault fired or a multi-request session ran; 1/300 of the cases start the real `desync chunk-server [-u] [-w]` or `desync index-server [-w]` on a loopback port over a local store and talk to it with the real HTTP client (present / missing / HEAD / PUT)",
+		Rule:     "one case = one of {chunk GET/HEAD/PUT through the real RemoteHTTP client and HTTPHandler over an in-process transport, for every combination of client/server -u, upstream format, verify flags per hop; index GET/PUT through RemoteHTTPIndex and HTTPIndexHandler (optionally chained behind a second index server) and HEAD on the index handler; a casync-protocol session of 1..8 requests against ProtocolServer over a pipe with byte-wise fragmentation and the connection cut after a tape-chosen byte} x response script (0..7 transient failures out of {connection reset, 500, 503, short body, response delayed past the client time-out}, then served / 404 / 400 / 403) x error-retry 0..5 x back-off base 1..500 ms, all in fake time; oracle: payload byte-identical, missing <=> ChunkMissing/NoSuchObject/false/404, failures never reported as missing or success, transient runs shorter than the budget invisible, requests seen == min(f+1, max(1, error-retry)), simulated time spent == documented linear back-off (+ time-outs); distinct = distinct (class incl. script shape, trace hash / tape); non-trivial = a transport fault fired or a multi-request session ran; 1/100 of the cases are process-level: the real `desync chunk-server [-u] [-w]` or `desync index-server [-w]` on a loopback port over a local store, talked to by the real HTTP client (present / missing / HEAD / PUT); `desync cat --config cfg [-e E] [-b I]` against a server answering the first f requests per object with 503 (budget = config store-options unless -e is given; attempts per fetch bounded, f < budget invisible, f >= budget an error); the casync protocol end to end: RemoteSSHStore (sequential requests, FIFO session pool modelled) or `desync extract|cache -s ssh://` over an ssh shim that runs the real `desync pull` on a compressed or (config file) uncompressed local store, with chunks missing and the link dying after n bytes of server output",
 		Assumptions: []string{
 			"client and server agree on -u (the chunk file extension is part of the request path); mismatched pairs are a configuration error and not generated",
 			"after a missing chunk the protocol server ends the session; later requests on that session may fail but must not be answered wrongly",
-			"TLS, authentication headers and real sockets are not exercised",
+			"TLS and authentication headers are not exercised; real sockets and child processes only in the process-level share",
 		},
 		Real: []string{"RemoteHTTP", "RemoteHTTPIndex", "IssueRetryableHttpRequest", "HTTPHandler", "HTTPIndexHandler", "Converters", "Protocol", "ProtocolServer", "LocalStore", "LocalIndexStore"},
 		Stub: []string{"HTTP transport (scripted in-process RoundTripper)", "ssh pipe", "fake clock (synctest)"},
@@ -187,13 +187,13 @@ func init() {
 	reg(&Prop{ID: "C08", Level: "fault_enumeration",
 		Quick:    Tier{Cases: 480, PerJob: 30, Seconds: 80},
 		Thorough: Tier{Cases: 48000, PerJob: 500, Seconds: 1500},
-		Rule:     "part A (local store): one case = workload {ChopFile, Copy, n+1 tasks storing the same chunks at once} x compressed/uncompressed LocalStore x n in 1..4 x blob of 1..12 chunks; a seeded schedule in which every file-system call is a scheduling point is recorded, then re-run with process death at EVERY file-system point k (<= 120 points; 80 sampled otherwise), each in two variants: death exactly at the point, and death during the write that just happened (a file that was created or grew in the last step is cut to a tape-chosen shorter length: torn write); after each death an independent validator (klauspost zstd + SHA512/256, not desync) checks that every file under a chunk name decodes and hashes to its name and everything else is a .tmp-cacnk* file, Prune removes exactly the temporary files, and (every 7th point) a restart completes the work; sub_evaluations = deaths; part B (1/4 of the cases): the real `desync extract` binary (with/without --in-place, with/without --seed, -n 1 or 4, destination absent / old version / other content) is SIGKILLed while GET request k is held by a gated loopback chunk server, for EVERY k: without --in-place the destination must be untouched, with it a re-run must complete correctly without refetching chunks already written; distinct = distinct (workload, n, format, schedule hash, number of points); non-trivial = a death was injected",
+		Rule:     "part A (local store): one case = workload {ChopFile, Copy, n+1 tasks storing the same chunks at once} x compressed/uncompressed LocalStore x n in 1..4 x blob of 1..12 chunks; a seeded schedule in which every file-system call is a scheduling point is recorded, then re-run with process death at EVERY file-system point k (<= 120 points; 80 sampled otherwise), each in two variants: death exactly at the point, and death during the write that just happened (a file that was created or grew in the last step is cut to a tape-chosen shorter length: torn write); after each death an independent validator (klauspost zstd + SHA512/256, not desync) checks that every file under a chunk name decodes and hashes to its name and everything else is a .tmp-cacnk* file, Prune removes exactly the temporary files, and (every 7th point) a restart completes the work; sub_evaluations = deaths; part B (1/4 of the cases): the real `desync extract` binary (with/without --in-place, with/without --seed, -n 1 or 4, destination absent / old version / other content) is SIGKILLed while GET request k is held by a gated loopback chunk server, for EVERY k: without --in-place the destination must be untouched, with it a re-run must complete correctly without refetching chunks already written; part C (1/8 of the cases): the real binary (extract, extract --in-place, chop, cache, make into a local store; -n 1 or 3; extract also with --print-stats) runs as a ptrace tracee of the harness, every system call of every thread is inspected, and the process is SIGKILLed in front of the k-th call that changes the file system (open with O_CREAT/O_TRUNC, write/pwrite to a file of the case, truncate, rename, unlink, mkdir, chmod, chown, fsync, link, utimensat, fallocate, clone ioctls, xattr calls), for EVERY k when there are <= 50 such calls, else the first 4, the last 12 and 30 tape-chosen ones: extract must leave the destination in its previous state or complete, extract --in-place must complete on a re-run, the target store must pass the independent validator and a re-run must complete; distinct = distinct (workload, n, format, schedule hash, number of points); non-trivial = a death was injected",
 		Assumptions: []string{
 			"process death = freezing every task at a file-system point: equivalent to SIGKILL for file contents (page cache survives, no user-space buffering on this path); power loss is out of scope of the property",
 			"a torn write is modelled at whole-file granularity on the file that grew in the last step",
 		},
 		Real: []string{"LocalStore.StoreChunk", "LocalStore.Prune", "ChopFile", "Copy", "ChunkStorage", "tempfile"},
-		Stub: []string{"scheduler", "crash injector", "source store"},
+		Stub: []string{"scheduler", "crash injector (task freeze in the bubble; SIGKILL via gated server or ptrace at process level)", "source store"},
 	})
 	reg(&Prop{ID: "C16", Level: "exploration",
 		Quick:    Tier{Cases: 32000, PerJob: 2000, Seconds: 70},
